@@ -6,7 +6,7 @@ MODULE = 'OpenFecVerif.Props.C17'
 THEOREMS = ['Sparse.C17_alloc_inv', 'Sparse.C17_insert_inv', 'Sparse.C17_delete_inv', 'Sparse.C17_clear_inv',
             'Sparse.C17_find_iff_mem', 'Sparse.C17_insert_mem', 'Sparse.C17_insert_idem', 'Sparse.C17_delete_mem',
             'Sparse.C17_row_sorted', 'Sparse.C17_col_exact', 'Sparse.C17_copy_spec', 'Sparse.C17_copyrows_spec',
-            'Sparse.C17_copycols_spec', 'Sparse.C17_copyFilled_spec', 'Sparse.C17_run_inv', 'Sparse.C17_pool_exact']
+            'Sparse.C17_copycols_spec', 'Sparse.C17_copyFilled_spec', 'Sparse.C17_run_inv', 'Sparse.C17_pool_exact', 'Sparse.C17_from_dense', 'Sparse.C17_to_dense']
 
 RULE = ('operation sequences on real of_mod2sparse matrices (allocate, insert, find, delete, clear, copy, copyrows, copycols, '
         'copy_filled_matrix, sparse<->dense) with a full dump after every mutating operation (every row traversal forwards and backwards, every '
